@@ -93,6 +93,14 @@ def fixed_stream(tier):
         [8, 0, 0, 0, 0, 1500, 2, 200000, 65536, 131072, 10, 1000, 500, 150, 0, 1, 20, 3000, 0, 1, 0],
         # heavy faults for 30 s
         [3, 100, 100, 50, 100, 1400, 8, 100000, 20000, 50000, 3, 5000, 0, 0, 0, 3, 50, 30000, 30000, 1, 0],
+        # known finding finish_flush_stream_never_finalized: a send half ended by finish() and then
+        # flush().await is never finalized, so stream credit is never returned
+        [4, 0, 0, 0, 0, 1500, 3, 100, 100000, 300000, 1, 700, 100, 0, 0, 2, 10, 5000, 0, 1, 1],
+        [9, 30, 0, 0, 0, 1500, 4, 5000, 65536, 131072, 2, 1000, 0, 0, 0, 0, 20, 6000, 3000, 0, 1],
+        [10, 0, 0, 0, 0, 1350, 2, 20000, 65536, 131072, 1, 5000, 500, 0, 0, 3, 5, 4000, 0, 1, 1],
+        # known finding both_windows_blocked_state_masks_stream_credit
+        [273259354617794, 0, 0, 0, 0, 1500, 1, 150, 1, 50, 3, 5000, 4096, 0, 0, 0, 10, 30000, 0, 1, 0],
+        [207524318816640, 0, 0, 0, 0, 9000, 4, 15000, 100, 3000, 3, 100, 0, 0, 0, 1, 100, 30000, 0, 0, 0],
     ]
 
 
@@ -105,7 +113,7 @@ def valid_stream(c):
 
 def nontrivial_stream(case, out):
     # connected and at least one flow moved data
-    return len(out) > 30 and out[4] == 1 and out[29] >= 1
+    return len(out) > 35 and out[4] == 1 and out[34] >= 1
 
 
 def hist_stream(cases, outs):
@@ -118,8 +126,188 @@ def hist_stream(cases, outs):
         h["outage"] += 1 if (c[13] > 0 and c[14] > 0) else 0
         h["lossy"] += 1 if c[1] + c[2] + c[3] + c[4] > 0 else 0
         h["connected"] += 1 if v[4] == "1" else 0
-        h["idle_closed"] += 1 if v[11] == "5" else 0
+        h["idle_closed"] += 1 if v[12] == "5" else 0
     return h
+
+
+# ---------------------------------------------------------------------------------------------
+# e2e_amp  (C11)
+# case: [seed, drop_pm, dup_pm, jitter_ms, delay_ms, chain_extra, n_raw, raw_kinds_mask, raw_per_sender,
+#        fault_until_ms, bytes, corrupt_pm]
+# ---------------------------------------------------------------------------------------------
+AMP_LEN = 12
+
+
+def gen_amp(rng):
+    seed = rng.randrange(1, 1 << 48)
+    lossy = rng.random() < 0.7
+    drop = rng.choice([50, 100, 200, 300, 500]) if lossy else 0
+    dup = rng.choice([0, 100, 300, 600]) if lossy else 0
+    jitter = rng.choice([0, 0, 10, 50]) if lossy else 0
+    corrupt = rng.choice([0, 0, 50, 200]) if lossy else 0
+    delay = rng.choice([1, 5, 20, 50, 150])
+    chain = rng.choice([0, 0, 1, 2, 3, 4, 6])
+    n_raw = rng.choice([0, 1, 2, 4])
+    mask = rng.choice([15, 15, 1, 2, 4, 8, 6])
+    per = rng.choice([3, 10, 25])
+    fault_until = rng.choice([500, 2000, 6000])
+    return [seed, drop, dup, jitter, delay, chain, n_raw, mask, per, fault_until, rng.choice([0, 1000, 20000]), corrupt]
+
+
+def fixed_amp(tier):
+    return [
+        [1, 0, 0, 0, 20, 0, 2, 15, 6, 0, 1000, 0],
+        [2, 300, 300, 0, 20, 4, 0, 0, 0, 4000, 1000, 0],
+        [3, 500, 0, 20, 50, 6, 2, 15, 20, 6000, 0, 100],
+        [4, 0, 600, 0, 5, 6, 4, 2, 25, 2000, 1000, 0],
+    ]
+
+
+def valid_amp(c):
+    return len(c) == AMP_LEN and all(v >= 0 for v in c) and c[1] <= 500 and c[5] <= 6 and c[6] <= 4 and c[8] <= 25
+
+
+def nontrivial_amp(case, out):
+    # at least one server datagram towards the client before validation, or a reply to a raw sender
+    if len(out) < 9:
+        return False
+    n = out[8]
+    srv, cli = out[1], out[2]
+    rows = [out[9 + 7 * i:16 + 7 * i] for i in range(n)]
+    return any(r[1] == 0 and r[2] == srv for r in rows)
+
+
+def hist_amp(cases, outs):
+    h = {"validated": 0, "never_validated": 0, "vn_replies": 0, "other_replies": 0, "capped": 0, "server_pre_validation_datagrams": 0}
+    for c, o in zip(cases, outs):
+        if o.startswith("!"):
+            continue
+        v = _parse(o)
+        h["validated" if v[4] >= 0 else "never_validated"] += 1
+        h["capped"] += v[7]
+        srv, cli = v[1], v[2]
+        valid = False
+        for i in range(v[8]):
+            r = v[9 + 7 * i:16 + 7 * i]
+            if r[1] == 2:
+                valid = True
+            if r[1] == 0 and r[2] == srv:
+                if r[3] == cli:
+                    h["server_pre_validation_datagrams"] += 0 if valid else 1
+                elif r[6] == 3:
+                    h["vn_replies"] += 1
+                else:
+                    h["other_replies"] += 1
+    return h
+
+
+# ---------------------------------------------------------------------------------------------
+# e2e_inject  (C06)
+# case: [seed, inject_pm, inject_kinds_mask, inject_from_ms, inject_len_ms, n_bidi, bytes, delay_ms,
+#        drop_pm, jitter_ms, n_uni, chunk, read_size]
+# ---------------------------------------------------------------------------------------------
+INJ_LEN = 13
+
+
+def gen_inject(rng):
+    seed = rng.randrange(1, 1 << 48)
+    delay = rng.choice([2, 10, 20, 50])
+    pm = rng.choice([50, 200, 500, 1000])
+    mask = rng.choice([63, 63, 63, 1, 2, 4, 8, 16, 32, 18])
+    start = 4 * delay + rng.choice([0, 20, 100, 500])
+    length = rng.choice([500, 2000, 10000])
+    n_bidi = rng.choice([1, 2, 4])
+    n_uni = rng.choice([0, 1, 2])
+    total = rng.choice([20000, 100000, 200000])
+    total = min(total, 1200000 // (2 * n_bidi + n_uni))
+    return [seed, pm, mask, start, length, n_bidi, total, delay, rng.choice([0, 0, 20, 80]), rng.choice([0, 0, 10, 40]),
+            n_uni, rng.choice([100, 1000, 20000]), rng.choice([0, 500, 10000])]
+
+
+def fixed_inject(tier):
+    return [
+        [1, 300, 63, 200, 3000, 2, 100000, 20, 0, 0, 1, 1000, 0],
+        [2, 1000, 16, 50, 10000, 1, 200000, 10, 0, 0, 0, 1000, 0],      # replays only
+        [3, 1000, 2, 50, 10000, 1, 200000, 10, 50, 20, 0, 1000, 500],   # bit flips only, lossy
+    ]
+
+
+def valid_inject(c):
+    return len(c) == INJ_LEN and all(v >= 0 for v in c) and 1 <= c[5] <= 4 and c[10] <= 2 and c[8] <= 80 and c[6] <= 200000 and c[4] <= 10000
+
+
+def nontrivial_inject(case, out):
+    if len(out) < 30:
+        return False
+    n = out[29]
+    b = 30 + 10 * n
+    return out[2] == 1 and sum(out[b:b + 6]) > 0
+
+
+def hist_inject(cases, outs):
+    h = {"injected_by_kind": [0] * 6, "processed_packets": 0}
+    for c, o in zip(cases, outs):
+        if o.startswith("!"):
+            continue
+        v = _parse(o)
+        b = 30 + 10 * v[29]
+        for k in range(6):
+            h["injected_by_kind"][k] += v[b + k]
+        b += 6
+        for _ in range(2):
+            h["processed_packets"] += v[b + 1]
+            b += 2 + 3 * v[b + 1]
+    return h
+
+
+def _parse(o):
+    return [(-int(t[1:], 16) if t.startswith("-") else int(t, 16)) for t in o.split()]
+
+
+def classify_e2e(p):
+    """class of a judge failure, for KNOWN_FINDINGS.txt (None = not a known class).
+
+    both_windows_blocked_state_masks_stream_credit: bytes per stream > connection window > stream
+    window; some stream direction stops although nothing is lost; both endpoints idle out.
+
+    finish_flush_stream_never_finalized: finish_mode = 1 (finish() then flush().await) with fewer
+    stream credits than streams; no permanent blackhole; no watchdog; every stream direction that
+    exists delivered all of its data intact and ended cleanly; the only thing missing is streams
+    that were never opened, and both endpoints ended by idle timeout."""
+    try:
+        if p.get("component") != "e2e_stream":
+            return None
+        c = p["case"]
+        o = p["impl"]
+        if len(c) != STREAM_LEN or o.startswith("!"):
+            return None
+        v = _parse(o)
+        # common shape of both classes: finite faults, no watchdog, connected, both endpoints ended
+        # by idle timeout, every application task resolved, no read byte wrong
+        if v[0] != 1 or v[1] != 0 or v[4] != 1 or v[8] != 0:
+            return None
+        cl, sv = v[10:22], v[22:34]
+        if not (cl[1] == 1 and cl[2] == 5 and sv[1] == 1 and sv[2] == 5):
+            return None
+        if cl[7] != cl[8] or sv[7] != sv[8]:
+            return None
+        n = v[34]
+        flows = [v[35 + 10 * i:45 + 10 * i] for i in range(n)]
+        if n == 0 or any(f[6] != -1 or f[5] > f[3] for f in flows):
+            return None
+        complete = [f[2] == f[3] == f[5] and f[4] == 1 and f[7] == 1 and f[8] == 0 and f[9] == 0 for f in flows]
+        if c[20] == 1 and c[10] < c[6] + c[15]:
+            # finish() + flush(): streams that exist are complete, later ones were never opened
+            if all(complete) and n < 2 * v[5] + v[6]:
+                return "finish_flush_stream_never_finalized"
+            return None
+        if c[7] > c[9] > c[8] and not all(complete):
+            # a stream wants more than the whole connection window while its stream window is
+            # smaller: BlockedOnConnectionWindow masks the stream credit that arrives later
+            return "both_windows_blocked_state_masks_stream_credit"
+        return None
+    except Exception:
+        return None
 
 
 E2E_COMPONENTS = {
@@ -128,8 +316,42 @@ E2E_COMPONENTS = {
         "gen": gen_stream, "fixed": fixed_stream, "quick": 40, "thorough": 600,
         "shard_lines": 1, "line_timeout": 300,
         "valid": valid_stream, "nontrivial": nontrivial_stream, "histogram": hist_stream,
+        "classify": classify_e2e,
+    },
+    "e2e_amp": {
+        "name": "e2e_amp", "harness": ("h_e2e", "E2E"), "ocaml": "E2E", "model": False,
+        "gen": gen_amp, "fixed": fixed_amp, "quick": 60, "thorough": 1500,
+        "shard_lines": 1, "line_timeout": 300,
+        "valid": valid_amp, "nontrivial": nontrivial_amp, "histogram": hist_amp,
+    },
+    "e2e_inject": {
+        "name": "e2e_inject", "harness": ("h_e2e", "E2E"), "ocaml": "E2E", "model": False,
+        "gen": gen_inject, "fixed": fixed_inject, "quick": 40, "thorough": 600,
+        "shard_lines": 1, "line_timeout": 300,
+        "valid": valid_inject, "nontrivial": nontrivial_inject, "histogram": hist_inject,
     },
 }
+
+# the same traces judged for one property only: e2e_stream_c01 (C01), e2e_stream_c02 (C02),
+# e2e_stream_c03 (C03), e2e_stream_c12 (C12).  The harness accepts these names as aliases of
+# e2e_stream; the extracted model judges them with the corresponding conjunct of the combined
+# judge (theorem E2E_stream_judge_split).  The two liveness findings only concern e2e_stream_c02.
+for _suffix in ("c01", "c02", "c03", "c12"):
+    _d = dict(E2E_COMPONENTS["e2e_stream"])
+    _d["name"] = "e2e_stream_" + _suffix
+    if _suffix != "c02":
+        _d.pop("classify", None)
+    E2E_COMPONENTS[_d["name"]] = _d
+
+
+def classify_e2e_c02(p):
+    q = dict(p)
+    if q.get("component") == "e2e_stream_c02":
+        q["component"] = "e2e_stream"
+    return classify_e2e(q)
+
+
+E2E_COMPONENTS["e2e_stream_c02"]["classify"] = classify_e2e_c02
 
 # ---------------------------------------------------------------------------------------------
 # temporary registration so that `./check E2E` runs end to end (to be removed by the orchestrator
@@ -142,7 +364,8 @@ registry.register("E2E", {
     "harness": "h_e2e",
     "harness_bin": "E2E",
     "axioms_allowed": [],
-    "components": [E2E_COMPONENTS[k] for k in ("e2e_stream",)],
+    "classify": classify_e2e,
+    "components": [E2E_COMPONENTS[k] for k in ("e2e_stream", "e2e_amp", "e2e_inject")],
     "rule": "seeded simulated connections over parameter profiles (clean / lossy / tiny windows and stream credit / permanent blackhole at every phase / temporary outage); a case is non-trivial when the handshake completed and at least one stream direction exists",
     "assumptions": [
         "running a monitor on a recorded trace is testing, not proof; the proved part is monitor soundness (props/E2E.v)",
